@@ -174,4 +174,33 @@ theorem read_append_new (s : Store) (x : List (List Nat)) : Store.read (s ++ [x]
   simp [List.getD_eq_getElem?_getD]
 
 
+/-- one operation through handle `b` leaves what another handle `a` (a different array) sees unchanged, and keeps
+the two handles on different arrays -/
+theorem apply_other (s : Store) (a b : Handle) (ha : a.arr < s.length) (hb : b.arr < s.length) (hne : a.arr ≠ b.arr)
+    (op : SOp) :
+    (op.apply s b).1.read a = s.read a ∧ a.arr < (op.apply s b).1.length ∧
+      (op.apply s b).2.arr < (op.apply s b).1.length ∧ a.arr ≠ (op.apply s b).2.arr := by
+  cases op with
+  | setItem idx w => simp only [SOp.apply]; exact ⟨read_set_ne _ _ _ _ hne, by simpa using ha, by simpa using hb, hne⟩
+  | fill w => simp only [SOp.apply]; exact ⟨read_set_ne _ _ _ _ hne, by simpa using ha, by simpa using hb, hne⟩
+  | setData rows =>
+    simp only [SOp.apply]
+    exact ⟨read_append _ _ _ ha, by simp; omega, by simp, by omega⟩
+
+theorem applyAll_other (ops : List SOp) : ∀ (s : Store) (a b : Handle), a.arr < s.length → b.arr < s.length →
+    a.arr ≠ b.arr → (applyAll s b ops).1.read a = s.read a := by
+  induction ops with
+  | nil => intro s a b _ _ _; rfl
+  | cons op ops ih =>
+    intro s a b ha hb hne
+    obtain ⟨h1, h2, h3, h4⟩ := apply_other s a b ha hb hne op
+    simp only [applyAll]
+    rw [ih _ a _ h2 h3 h4, h1]
+
+
+
+theorem bytes_pos_of_mem {t : DType} (h : t ∈ allDTypes) : 0 < t.bytes := by
+  revert t; decide
+
+
 end HydroVerif.C13
